@@ -161,7 +161,7 @@ func subvec(args ...MalType) (MalType, error) {
 		return nil, fmt.Errorf("subvec index out of range (from %d to %d on a vector of %d elements)", from, to, len(v.Val))
 	}
 	return Vector{
-		Val: v.Val[from:to],
+		Val: v.Val[from:to:to],
 	}, nil
 }
 
